@@ -1,7 +1,8 @@
 import TaskModel.Gen.PanicSites
 /-
 Decode.Sites — every expression on the load / compile / resolve / list path that can
-panic by itself (index, slice, unchecked type assertion, Must*, explicit panic), as
+panic by itself (index, slice, unchecked type assertion, Must*, explicit panic, a field read through
+the element of a list of pointers without a nil guard), as
 extracted from the current source (local variables printed as ‹their type›, so renaming them does not
 change a site), with the reason it cannot fire.  A site that is not
 in this table (a new unchecked index, say) breaks `all_panic_sites_discharged`.
@@ -63,10 +64,40 @@ def discharged : List (String × String × String × String) := [
   ("taskfile:getScheme", "index", "strings.Split(‹*url.URL›.Path, \"//\")[0]", "split: element 0 always exists"),
   ("taskfile:getScheme", "slice", "‹string›[:‹int›]", "guard: i := strings.Index(uri, \"://\"); i != -1"),
   ("taskfile:init", "panic", "panic(‹error›)", "init: chroma style registration with a constant definition"),
-  ("task:Executor.runDeferred", "unchecked", "‹*task.Executor›.Compiler.GetVariables(‹*ast.Task›, ‹*task.Call›)", "repeat: runDeferred is only reached from RunTask after CompiledTask(call) succeeded, which ran the same GetVariables(origTask, call); the evaluation is deterministic given the dynamic-variable cache (sh: results are cached by directory and command text), so the error branch is not taken and the pointer is non-nil (Vars.ToCacheMap itself is NOT nil-safe)")]
+  -- `nilelem`: a field of the element of a list of pointers read in a loop without a nil guard (a null YAML list entry
+  -- decodes to a nil element).  The lists below never hold one:
+  ("internal/fingerprint:ChecksumChecker.IsUpToDate", "nilelem", "range ‹*ast.Task›.Generates: ‹*ast.Glob›.Negate", "compiled: the checkers are handed the COMPILED task; its Generates come from templater.ReplaceGlobs, which drops nil entries (compiled_lists_nil_free)"),
+  ("internal/fingerprint:TimestampChecker.IsUpToDate", "nilelem", "range ‹*ast.Task›.Generates: ‹*ast.Glob›.Negate", "compiled: same"),
+  ("internal/fingerprint:Globs", "nilelem", "range ‹[]*ast.Glob›: ‹*ast.Glob›.Glob", "compiled: called with Sources / Generates of a compiled task (ReplaceGlobs dropped the nil entries)"),
+  ("internal/summary:printTaskCommands", "nilelem", "range ‹*ast.Task›.Cmds: ‹*ast.Cmd›.Cmd", "compiled: PrintTask gets the compiled task; compiledTask skips nil commands (compiled_lists_nil_free)"),
+  ("internal/summary:printTaskDependencies", "nilelem", "range ‹*ast.Task›.Deps: ‹*ast.Dep›.Task", "compiled: same, nil dependencies are skipped"),
+  ("task:Executor.areTaskPreconditionsMet", "nilelem", "range ‹*ast.Task›.Preconditions: ‹*ast.Precondition›.Sh", "compiled: RunTask passes the compiled task; nil preconditions are skipped (compiled_lists_nil_free)"),
+  ("task:Executor.ListTasks", "nilelem", "range ‹[]*ast.Task›: ‹*ast.Task›.Task", "code: the list is built by GetTaskList from compiled tasks (each the address of a fresh struct)"),
+  ("task:Executor.Run", "nilelem", "range ‹[]*task.Call›: ‹*task.Call›.Task", "code: calls are built by args.Parse / the CLI as &task.Call{…}; an API argument, not decoded input"),
+  ("taskfile/ast:NewIncludes", "nilelem", "range ‹[]*ast.IncludeElement›: ‹*ast.IncludeElement›.Key", "code: constructor arguments written in Go, not decoded input"),
+  ("taskfile/ast:NewMatrix", "nilelem", "range ‹[]*ast.MatrixElement›: ‹*ast.MatrixElement›.Key", "code: same"),
+  ("taskfile/ast:NewTasks", "nilelem", "range ‹[]*ast.TaskElement›: ‹*ast.TaskElement›.Key", "code: same"),
+  ("taskfile/ast:NewVars", "nilelem", "range ‹[]*ast.VarElement›: ‹*ast.VarElement›.Key", "code: same")]
 
 def isDischarged (s : String × String × String) : Bool :=
   discharged.any (fun d => d.1 == s.1 && d.2.1 == s.2.1 && d.2.2.1 == s.2.2)
+
+/-! ### the fact behind the `compiled` reasons
+
+`Gen.PanicSites.compiledLists`: how `Executor.compiledTask` fills each field of the compiled task that is a list of
+pointers.  A field is NIL-FREE when its elements are appended in a loop that skips nil elements first (`filtered-nil`)
+or come out of `templater.ReplaceGlobs` (whose own loop skips them: were that guard dropped, the loop would show up as
+an undischarged `nilelem` site).  A field handed over as it is (`pass`) may hold nil elements: it must be in the
+reviewed list below, and every loop over it has to guard — an unguarded one is a `nilelem` site with no entry in
+`discharged` (that is how `platforms: [~]` and `requires: {vars: [~]}` crashed before the repair). -/
+
+def nilFreeHow (h : String) : Bool := h == "filtered-nil" || h == "call:templater.ReplaceGlobs"
+
+/-- list fields that reach the compiled task unfiltered; their readers guard every element -/
+def passThroughLists : List String := ["Platforms"]
+
+def compiledListsOk (rows : List (String × String)) : Bool :=
+  rows.all (fun r => rows.any (fun r' => r'.1 == r.1 && nilFreeHow r'.2) || (r.2 == "pass" && passThroughLists.contains r.1))
 
 /-! ### the local arguments behind the `yaml` and snippet reasons -/
 
